@@ -14,6 +14,7 @@ import (
 	"time"
 
 	"github.com/mimecast/dtail/verif/lib"
+	"github.com/mimecast/dtail/verif/model"
 	"pgregory.net/rapid"
 )
 
@@ -26,6 +27,10 @@ var (
 )
 
 const nServers = 6
+
+// maxLineLength is the MaxLineLength of every server of the pool and of the client (serverless sessions):
+// small enough that generated lines reach and exceed it, so that split pieces take part in the interleaving.
+const maxLineLength = 6000
 
 func TestMain(m *testing.M) {
 	lib.Main(m, func() {
@@ -60,7 +65,7 @@ func pool() ([]*lib.Server, error) {
 		// server k only serves files below a directory named srv<k>
 		perm := &lib.Permissions{Default: []string{"^" + regexp.QuoteMeta(root) + "/.*/srv" + strconv.Itoa(k) + "/.*"}}
 		s, err := lib.StartServer(lib.ServerOpts{Dir: filepath.Join(root, fmt.Sprintf("server%d", k)), Label: fmt.Sprintf("host%d", k),
-			Cfg: lib.ServerCfg{MaxConcurrentCats: 2, Permissions: perm}, Users: map[string][]string{"tester": {userKey.Authorized}}})
+			Cfg: lib.ServerCfg{MaxConcurrentCats: 2, MaxLineLength: maxLineLength, Permissions: perm}, Users: map[string][]string{"tester": {userKey.Authorized}}})
 		if err != nil {
 			return nil, err
 		}
@@ -83,9 +88,12 @@ type multiCase struct {
 	Sources    []source
 	Serverless bool
 	Grep       bool // dgrep selecting the lines whose number is even
+	// grep context options (0 = not given)
+	Before, After, Max int
 }
 
-var lenClasses = []int{1, 20, 200, 3000, 9000, 30000}
+// the class at index 4 is "around MaxLineLength" (see lineOf)
+var lenClasses = []int{1, 20, 200, 3000, maxLineLength, 9000, 30000}
 
 func genCase(t *rapid.T) multiCase {
 	var c multiCase
@@ -103,9 +111,14 @@ func genCase(t *rapid.T) multiCase {
 		}
 		for f := 0; f < nf; f++ {
 			lk := rapid.IntRange(0, len(lenClasses)-1).Draw(t, "lenk")
-			maxLines := []int{2000, 2000, 1000, 200, 60, 20}[lk]
+			maxLines := []int{2000, 2000, 1000, 200, 100, 60, 20}[lk]
 			c.Sources = append(c.Sources, source{Server: k, File: f, Lines: rapid.IntRange(1, maxLines).Draw(t, "lines"), LenK: lk, Seed: rapid.IntRange(0, 1000).Draw(t, "seed")})
 		}
+	}
+	if c.Grep && rapid.Bool().Draw(t, "context") {
+		c.Before = rapid.SampledFrom([]int{0, 0, 1, 2, 3, 7}).Draw(t, "before")
+		c.After = rapid.SampledFrom([]int{0, 0, 1, 2, 5}).Draw(t, "after")
+		c.Max = rapid.SampledFrom([]int{0, 0, 1, 3, 40}).Draw(t, "max")
 	}
 	return c
 }
@@ -117,7 +130,12 @@ func lineOf(s source, n int) []byte {
 	tag := fmt.Sprintf("S%d-F%d-L%d-", s.Server, s.File, n)
 	want := lenClasses[s.LenK]
 	// vary the length around the class
-	want = want - (n*7+s.Seed)%(want/2+1)
+	if s.LenK == 4 {
+		// around MaxLineLength: M-40 .. M+39, so that some lines are split into a full piece and a short rest
+		want = maxLineLength - 40 + (n*7+s.Seed)%80
+	} else {
+		want = want - (n*7+s.Seed)%(want/2+1)
+	}
 	if want < len(tag) {
 		return []byte(tag)
 	}
@@ -140,7 +158,11 @@ func evalCase(c multiCase) lib.Outcome {
 	cdir := filepath.Join(root, fmt.Sprintf("case%d", id%64))
 	os.RemoveAll(cdir)
 	defer os.RemoveAll(cdir)
-	big, long := 0, false
+	big, long, split := 0, false, false
+	grepRe := regexp.MustCompile(`^S[0-9]+-F[0-9]+-L[0-9]*[02468]-`)
+	// per source: the pieces the server makes of the file (lines cut at MaxLineLength) and which of them must be printed
+	pieces := map[string][][]byte{}
+	wantIdx := map[string][]int{}
 	for _, s := range c.Sources {
 		d := filepath.Join(cdir, fmt.Sprintf("srv%d", s.Server))
 		os.MkdirAll(d, 0o755)
@@ -150,6 +172,28 @@ func evalCase(c multiCase) lib.Outcome {
 			b.WriteByte('\n')
 		}
 		os.WriteFile(filepath.Join(d, fmt.Sprintf("f%d.log", s.File)), b.Bytes(), 0o644)
+		id := fmt.Sprintf("srv%d/f%d.log", s.Server, s.File)
+		ps := model.Pieces(model.SplitLong(b.Bytes(), maxLineLength))
+		for i := range ps {
+			ps[i] = bytes.TrimSuffix(ps[i], []byte("\n"))
+		}
+		pieces[id] = ps
+		if len(ps) > s.Lines {
+			split = true
+		}
+		if c.Grep {
+			sel := make([]bool, len(ps))
+			for i, p := range ps {
+				sel[i] = grepRe.Match(p)
+			}
+			wantIdx[id] = model.Grep(sel, c.Before, c.After, c.Max)
+		} else {
+			all := make([]int, len(ps))
+			for i := range all {
+				all[i] = i
+			}
+			wantIdx[id] = all
+		}
 		if s.Lines >= 50 {
 			big++
 		}
@@ -162,18 +206,35 @@ func evalCase(c multiCase) lib.Outcome {
 	if long {
 		o.Classes = append(o.Classes, "line>8KiB")
 	}
+	if split {
+		o.Classes = append(o.Classes, "line-split-at-MaxLineLength")
+	}
 	if c.Serverless {
 		o.Classes = append(o.Classes, "serverless")
 	}
 	if c.Grep {
 		o.Classes = append(o.Classes, "grep")
 	}
+	if c.Before+c.After+c.Max > 0 {
+		o.Classes = append(o.Classes, "grep-context")
+	}
+	cfgPath := filepath.Join(cdir, "client.json")
+	lib.WriteCfg(cfgPath, lib.ServerCfg{MaxLineLength: maxLineLength, MaxConcurrentCats: 2})
 	glob := filepath.Join(cdir, "*", "*.log")
 	bin := "dcat"
-	args := []string{"--noColor", "--logLevel", "error"}
+	args := []string{"--noColor", "--logLevel", "error", "--cfg", cfgPath}
 	if c.Grep {
 		bin = "dgrep"
-		args = append(args, "--regex", `^S[0-9]+-F[0-9]+-L[0-9]*[02468]-`)
+		args = append(args, "--regex", grepRe.String())
+		if c.Before > 0 {
+			args = append(args, "--before", strconv.Itoa(c.Before))
+		}
+		if c.After > 0 {
+			args = append(args, "--after", strconv.Itoa(c.After))
+		}
+		if c.Max > 0 {
+			args = append(args, "--max", strconv.Itoa(c.Max))
+		}
 	}
 	hostOf := map[int]string{}
 	env := []string{}
@@ -212,8 +273,7 @@ func evalCase(c multiCase) lib.Outcome {
 	for _, s := range c.Sources {
 		src[key{hostOf[s.Server], fmt.Sprintf("srv%d/f%d.log", s.Server, s.File)}] = s
 	}
-	last := map[key]int{}
-	seenN := map[key]int{}
+	pos := map[key]int{} // how many records of the source were printed so far
 	out := r.Stdout
 	if len(out) > 0 && out[len(out)-1] != '\n' {
 		o.Fail = "output does not end with a newline (a torn last line)"
@@ -227,18 +287,18 @@ func evalCase(c multiCase) lib.Outcome {
 		f := bytes.SplitN(l, []byte("|"), 6)
 		switch {
 		case len(f) >= 3 && (string(f[0]) == "SERVER" || string(f[0]) == "CLIENT"):
-			continue // a well-formed log record (e.g. "Unable to read file(s)" for the other servers' directories)
+			continue // a well-formed log record (e.g. "Unable to read file(s)" for the other servers' directories, "Long log line")
 		case len(f) == 6 && string(f[0]) == "REMOTE":
 			k := key{string(f[1]), string(f[4])}
-			s, ok := src[k]
-			if !ok {
+			if _, ok := src[k]; !ok {
 				o.Fail = fmt.Sprintf("output line %d is attributed to an unknown source (host %q, id %q)", ln+1, f[1], f[4])
 				o.Observed = clip(l)
 				return o
 			}
+			ps, want := pieces[k.id], wantIdx[k.id]
 			n, err := strconv.Atoi(string(f[3]))
-			if err != nil || n < 1 || n > s.Lines {
-				o.Fail = fmt.Sprintf("output line %d carries line number %q, source %v has %d lines", ln+1, f[3], k, s.Lines)
+			if err != nil || n < 1 || n > len(ps) {
+				o.Fail = fmt.Sprintf("output line %d carries line number %q, source %v has %d lines", ln+1, f[3], k, len(ps))
 				o.Observed = clip(l)
 				return o
 			}
@@ -246,38 +306,31 @@ func evalCase(c multiCase) lib.Outcome {
 				o.Fail = fmt.Sprintf("output line %d reports transmission percentage %q in a cat/grep session", ln+1, f[2])
 				return o
 			}
-			if !bytes.Equal(f[5], lineOf(s, n)) {
-				o.Fail = fmt.Sprintf("output line %d labelled %v #%d is not line %d of that source (fragment, merge or wrong label)", ln+1, k, n, n)
-				o.Expected, o.Observed = clip(lineOf(s, n)), clip(f[5])
+			if !bytes.Equal(f[5], ps[n-1]) {
+				o.Fail = fmt.Sprintf("output line %d labelled %v #%d is not line %d of that source (fragment, merge or wrong label / number)", ln+1, k, n, n)
+				o.Expected, o.Observed = clip(ps[n-1]), clip(f[5])
 				return o
 			}
-			if n <= last[k] {
-				o.Fail = fmt.Sprintf("source %v: line %d printed after line %d (order not kept or duplicate)", k, n, last[k])
+			i := pos[k]
+			if i >= len(want) {
+				o.Fail = fmt.Sprintf("source %v: line %d printed although all %d selected lines were printed already (duplicate or not selected)", k, n, len(want))
 				return o
 			}
-			step := 1
-			if c.Grep {
-				step = 2
-			}
-			if last[k] != 0 && n != last[k]+step || last[k] == 0 && n != step {
-				o.Fail = fmt.Sprintf("source %v: line %d follows line %d (a selected line is missing)", k, n, last[k])
+			if n != want[i]+1 {
+				o.Fail = fmt.Sprintf("source %v: record %d carries line number %d, the next selected line is %d (missing, duplicated, reordered or misnumbered)", k, i+1, n, want[i]+1)
+				o.Expected = fmt.Sprintf("before=%d after=%d max=%d", c.Before, c.After, c.Max)
 				return o
 			}
-			last[k] = n
-			seenN[k]++
+			pos[k]++
 		default:
 			o.Fail = fmt.Sprintf("output line %d is neither a REMOTE record nor a log record (a fragment?)", ln+1)
 			o.Observed = clip(l)
 			return o
 		}
 	}
-	for k, s := range src {
-		want := s.Lines
-		if c.Grep {
-			want = s.Lines / 2
-		}
-		if seenN[k] != want {
-			o.Fail = fmt.Sprintf("source %v delivered %d lines, want %d (exit=%d)", k, seenN[k], want, r.Exit)
+	for k := range src {
+		if pos[k] != len(wantIdx[k.id]) {
+			o.Fail = fmt.Sprintf("source %v delivered %d lines, want %d (exit=%d)", k, pos[k], len(wantIdx[k.id]), r.Exit)
 			o.Observed = tail(r.Stderr)
 			return o
 		}
@@ -304,6 +357,6 @@ func tail(b []byte) string {
 
 func TestC07Interleave(t *testing.T) {
 	lib.Run(t, lib.Spec[multiCase]{Prop: "C07", Check: "interleave",
-		Rule: "dcat / dgrep --noColor (record mode) with one glob against 2..6 real servers over SSH (distinct host labels; each server may only serve its own directory) x 1..4 files each, or serverless over 2..5 files; 1..2000 tagged lines per source with lengths from 1 B to 30 KiB; oracle: every output line is a well-formed log record or REMOTE|host|100|n|id|content with (host,id) a real source and content == line n of that source; per source n = 1,2,3,... (every second line for dgrep) with nothing missing; exit 0; non-trivial = >=2 sources with >=50 lines each, or a line > 8 KiB; distinct by case",
+		Rule: "dcat / dgrep --noColor (record mode) with one glob against 2..6 real servers over SSH (distinct host labels; each server may only serve its own directory) x 1..4 files each, or serverless over 2..5 files; 1..2000 tagged lines per source with lengths from 1 B to 30 KiB incl. a class around MaxLineLength (6000 on servers and client, so longer lines arrive as numbered pieces); dgrep with and without --before/--after/--max; oracle: every output line is a well-formed log record or REMOTE|host|100|n|id|content with (host,id) a real source and content == piece n of that source; per source the sequence of n is exactly the index list the grep reference model prescribes (1,2,3,... for dcat), nothing missing or repeated; exit 0; non-trivial = >=2 sources with >=50 lines each, or a line > 8 KiB; distinct by case",
 		Gen:  genCase, Eval: evalCase})
 }
